@@ -338,6 +338,13 @@ class C07(Check):
                 D = rng.choice([0.0, rng.uniform(0.002, 0.03)])
                 wn.add_junction(nm, base_demand=D, elevation=el)
                 j = wn.get_node(nm)
+                if rng.random() < 0.35:
+                    # several demand entries; the requested demand is their sum (the first entry may well be zero)
+                    for _e in range(rng.randint(1, 2)):
+                        extra = rng.uniform(0.002, 0.02)
+                        j.add_demand(extra, None, rng.choice([None, "cat"]))
+                        D += extra
+                    ctx.count("sim_multi_demand_junction" + ("_first_zero" if j.demand_timeseries_list[0].base_value == 0 else ""))
                 own = (rng.choice([None, 1.0]), rng.choice([None, 12.0, 40.0]), rng.choice([None, 0.8, 1.0]))
                 j.minimum_pressure, j.required_pressure, j.pressure_exponent = own
                 conf[nm] = (eff(own, gl), D, el)
